@@ -132,7 +132,7 @@ func makeCtorMatch(g *Generator, expFields []*Field, ctorParams []*Field, tagMap
 				p.CanAssign = true
 			} else if conv {
 				p.IsConv = true
-				p.Type = types.TypeString(p.typ, g.qualifier)
+				p.Type = convTypeName(types.TypeString(p.typ, g.qualifier))
 			}
 			if same || conv {
 				p.Target = f //ref:01; Target has different meanings
